@@ -124,6 +124,17 @@ def writer(ctx):
                 if l[2] in r.assume:
                     cl = r.assume[l[2]]
             flip_at = st_cl[0] if st_cl else len(ev)
+            for i in st_cl:
+                v = ev[i][2]
+                # the flip really flips: what is stored is the negation of the flag value loaded on this path (a store of
+                # the same value leaves every reader on one counter, which overlapping readers then never let reach zero)
+                ok = v[0] == "flag" and v[1] == "m_countingLeft" and v[3] is True
+                if v[0] == "lit" and cl is not None:
+                    ok = v[1] == (not cl)
+                ctx.ob(rid, ok, f.loc(ev[i][4]), "the store to m_countingLeft moves new readers to the other counter (stores the "
+                       "negation of the value read)", "" if ok else "the stored value is %s: new readers keep registering in the "
+                       "counter the writer is about to wait on" % ("the value just read, not its negation" if v[0] == "flag" else v[0]),
+                       fn=f.label, inst=f.qname)
             waits = [(i, e) for i, e in enumerate(ev) if e[0] == "loopcond" and e[1]]
             bad = None
             for i, e in waits:
